@@ -14,7 +14,10 @@ import (
 	stded25519 "crypto/ed25519"
 	"fmt"
 	"math/big"
+	"os"
 	"reflect"
+	"strings"
+	gosync "sync"
 
 	logger "github.com/ElrondNetwork/elrond-go-logger"
 	"github.com/ElrondNetwork/elrond-go/core"
@@ -38,6 +41,7 @@ import (
 	"github.com/ElrondNetwork/elrond-go/process"
 	"github.com/ElrondNetwork/elrond-go/process/block/interceptedBlocks"
 	"github.com/ElrondNetwork/elrond-go/process/headerCheck"
+	interceptorFactory "github.com/ElrondNetwork/elrond-go/process/interceptors/factory"
 	"github.com/ElrondNetwork/elrond-go/process/mock"
 	"github.com/ElrondNetwork/elrond-go/process/rewardTransaction"
 	txproc "github.com/ElrondNetwork/elrond-go/process/transaction"
@@ -87,6 +91,9 @@ type env struct {
 	edPks    [][]byte
 	pubConv  core.PubkeyConverter
 	signMsh  marshal.Marshalizer
+
+	multiSig crypto.MultiSigner
+	fakeSig  bool // light objects for the concurrent phase: headers get syntactic placeholders instead of BLS signatures
 }
 
 func newEnv(seed uint64) (*env, error) {
@@ -137,6 +144,7 @@ func newEnv(seed uint64) (*env, error) {
 	if err != nil {
 		return nil, err
 	}
+	e.multiSig = tmpl
 	e.hsv, err = headerCheck.NewHeaderSigVerifier(&headerCheck.ArgsHeaderSigVerifier{
 		Marshalizer: e.plain, Hasher: e.hasher, NodesCoordinator: nc, MultiSigVerifier: tmpl,
 		SingleSigVerifier: e.blsSingle, KeyGen: e.blsKg, FallbackHeaderValidator: &testscommon.FallBackHeaderValidatorStub{},
@@ -170,6 +178,13 @@ func newEnv(seed uint64) (*env, error) {
 
 // signHeader fills RandSeed, Signature, PubKeysBitmap, LeaderSignature with real BLS signatures
 func (e *env) signHeader(h data.HeaderHandler) error {
+	if e.fakeSig {
+		h.SetRandSeed(e.hasher.Compute("rs" + string(h.GetPrevRandSeed())))
+		h.SetSignature(e.hasher.Compute("sig" + string(h.GetPrevHash())))
+		h.SetPubKeysBitmap([]byte{0x07})
+		h.SetLeaderSignature(e.hasher.Compute("ls" + string(h.GetPrevHash())))
+		return nil
+	}
 	rs, err := e.blsSingle.Sign(e.blsSks[0], h.GetPrevRandSeed())
 	if err != nil {
 		return err
@@ -451,6 +466,172 @@ func (e *env) specs() []*tspec {
 	}
 }
 
+// ---------------------------------------------------------------------------------------
+// concurrent phase: the REAL data factories of process/interceptors/factory, shared by several goroutines
+
+type namedFactory struct {
+	name    string
+	f       process.InterceptedDataFactory
+	light   func(rng *vk.Rand) interface{}
+	content func(d process.InterceptedData) interface{}
+}
+
+func (e *env) factories() ([]*namedFactory, error) {
+	coreC := &mock.CoreComponentsMock{IntMarsh: e.onM, TxMarsh: e.signMsh, Hash: e.hasher, TxSignHasherField: e.hasher,
+		UInt64ByteSliceConv: &mock.Uint64ByteSliceConverterMock{}, AddrPubKeyConv: e.pubConv, ChainIdCalled: func() string { return "1" },
+		TxVersionCheckField: versioning.NewTxVersionChecker(1), EpochNotifierField: &mock.EpochNotifierStub{}}
+	cryptoC := &mock.CryptoComponentsMock{BlockSig: e.blsSingle, TxSig: e.edSigner, MultiSig: e.multiSig, BlKeyGen: e.blsKg, TxKeyGen: e.edKg}
+	arg := &interceptorFactory.ArgInterceptedDataFactory{CoreComponents: coreC, CryptoComponents: cryptoC, ShardCoordinator: e.coord, NodesCoordinator: mock.NewNodesCoordinatorMock(),
+		FeeHandler: &mock.FeeHandlerStub{}, WhiteListerVerifiedTxs: &testscommon.WhiteListHandlerStub{}, HeaderSigVerifier: e.hsv, ValidityAttester: e.attester,
+		HeaderIntegrityVerifier: e.hdrIntegr, EpochStartTrigger: e.epochStart, ArgsParser: &mock.ArgumentParserMock{}}
+	le := *e
+	le.fakeSig = true
+	hdrContent := func(d process.InterceptedData) interface{} {
+		if x, ok := d.(interface{ HeaderHandler() data.HeaderHandler }); ok {
+			return x.HeaderHandler()
+		}
+		return nil
+	}
+	txContent := func(d process.InterceptedData) interface{} {
+		if x, ok := d.(interface {
+			Transaction() data.TransactionHandler
+		}); ok {
+			return x.Transaction()
+		}
+		return nil
+	}
+	var out []*namedFactory
+	add := func(name string, f process.InterceptedDataFactory, err error, light func(rng *vk.Rand) interface{}, content func(d process.InterceptedData) interface{}) error {
+		if err != nil {
+			return fmt.Errorf("%s factory: %w", name, err)
+		}
+		out = append(out, &namedFactory{name, f, light, content})
+		return nil
+	}
+	f1, err := interceptorFactory.NewInterceptedShardHeaderDataFactory(arg)
+	if err = add("Header", f1, err, le.genHeader, hdrContent); err != nil {
+		return nil, err
+	}
+	f2, err := interceptorFactory.NewInterceptedMetaHeaderDataFactory(arg)
+	if err = add("MetaBlock", f2, err, le.genMeta, hdrContent); err != nil {
+		return nil, err
+	}
+	f3, err := interceptorFactory.NewInterceptedMiniblockDataFactory(arg)
+	if err = add("MiniBlock", f3, err, le.genMiniBlock, func(d process.InterceptedData) interface{} {
+		if x, ok := d.(interface{ Miniblock() *block.MiniBlock }); ok {
+			return x.Miniblock()
+		}
+		return nil
+	}); err != nil {
+		return nil, err
+	}
+	f4, err := interceptorFactory.NewInterceptedTxDataFactory(arg)
+	if err = add("Transaction", f4, err, le.genTx, txContent); err != nil {
+		return nil, err
+	}
+	f5, err := interceptorFactory.NewInterceptedRewardTxDataFactory(arg)
+	if err = add("RewardTx", f5, err, le.genRewardTx, txContent); err != nil {
+		return nil, err
+	}
+	f6, err := interceptorFactory.NewInterceptedUnsignedTxDataFactory(arg)
+	if err = add("UnsignedTx", f6, err, le.genSCR, txContent); err != nil {
+		return nil, err
+	}
+	return out, nil
+}
+
+// concurrentCase: G goroutines create intercepted data for DIFFERENT buffers through one shared factory at the
+// same time. Every created object must belong to the buffer it was created from: Hash() == hasher(buffer) and
+// its decoded content re-marshals to that buffer.
+func concurrentCase(r *vk.Run, c *vk.Case, e *env, ft *namedFactory, perGoroutine int) {
+	rng := c.Rng
+	G := 4 + rng.Intn(5)
+	bufs := make([][][]byte, G)
+	owner := map[string]string{}
+	for g := 0; g < G; g++ {
+		for i := 0; i < perGoroutine; i++ {
+			b, err := e.plain.Marshal(ft.light(rng))
+			if err != nil || len(b) == 0 {
+				continue
+			}
+			bufs[g] = append(bufs[g], b)
+			owner[string(b)] = fmt.Sprintf("goroutine %d item %d", g, len(bufs[g])-1)
+		}
+	}
+	var wg gosync.WaitGroup
+	start := make(chan struct{})
+	var mu gosync.Mutex
+	created, failed := 0, 0
+	for g := 0; g < G; g++ {
+		wg.Add(1)
+		go func(g int) {
+			defer wg.Done()
+			<-start
+			for i, buf := range bufs[g] {
+				var d process.InterceptedData
+				var err error
+				p, pv, st := vk.Guard(func() { d, err = ft.f.Create(append([]byte(nil), buf...)) })
+				if p {
+					r.Violation(c.Idx, "panic:"+vk.TopFrame(st), fmt.Sprintf("factory %s Create panicked under concurrency: %v", ft.name, pv), map[string]interface{}{"stack": st})
+					continue
+				}
+				r.Eval(1)
+				if err != nil || d == nil || reflect.ValueOf(d).IsNil() {
+					mu.Lock()
+					failed++
+					mu.Unlock()
+					r.Count("concurrent_create_failed:"+ft.name, 1)
+					continue
+				}
+				mu.Lock()
+				created++
+				mu.Unlock()
+				h := append([]byte(nil), d.Hash()...)
+				want := e.hasher.Compute(string(buf))
+				var R []byte
+				if o := ft.content(d); o != nil && !reflect.ValueOf(o).IsNil() {
+					R, _ = e.plain.Marshal(o)
+				}
+				hashOK, contentOK := bytes.Equal(h, want), bytes.Equal(R, buf)
+				if hashOK && contentOK {
+					continue
+				}
+				what := ""
+				det := map[string]interface{}{"type": ft.name, "goroutines": G, "created_from": fmt.Sprintf("goroutine %d item %d", g, i), "buffer": vk.Hex(buf),
+					"hash": vk.Hex(h), "expected_hash": vk.Hex(want), "content_remarshalled": vk.Hex(R)}
+				if !hashOK {
+					what += "Hash() is not the hash of the buffer it was created from"
+					for k, v := range owner {
+						if bytes.Equal(e.hasher.Compute(k), h) {
+							what += " (it is the hash of the buffer of " + v + ")"
+							det["hash_belongs_to"] = v
+						}
+					}
+				}
+				if !contentOK {
+					if what != "" {
+						what += "; "
+					}
+					what += "content is not the content of its buffer"
+					if v, ok := owner[string(R)]; ok {
+						what += " (it is the content of " + v + ")"
+						det["content_belongs_to"] = v
+					}
+				}
+				r.Violation(c.Idx, "factory-object-mixes-buffers type="+ft.name, fmt.Sprintf("%s factory, %d goroutines: object created from goroutine %d item %d: %s", ft.name, G, g, i, what), det)
+			}
+		}(g)
+	}
+	close(start)
+	wg.Wait()
+	r.Count("concurrent_creates:"+ft.name, created)
+	if created == 0 {
+		r.Inconclusive(fmt.Sprintf("concurrent phase: no %s object could be created (%d failures)", ft.name, failed))
+		return
+	}
+	r.Shape(fmt.Sprintf("concurrent %s goroutines=%d", ft.name, G))
+}
+
 // run feeds one buffer through constructor + CheckValidity; a panic in the code under test is an error of
 // its own kind (reported by the caller)
 func run(t *tspec, buf []byte, m marshal.Marshalizer) (hash []byte, ctorErr error, validErr error) {
@@ -474,6 +655,7 @@ func main() {
 		"production wiring: SizeCheckUnmarshalizer(GogoProtoMarshalizer, delta=10); 'sizecheck=off' is the wiring with SizeCheckDelta = 0",
 		"a witness under sizecheck=off is only reported when the same bytes were rejected with the size check on (otherwise it is the same witness)",
 		"a mutant of another class that outgrows the size-check tolerance (always the case for the all-default miniblock, tolerance 0) is judged under the production wiring only, key class=growth-beyond-delta")
+	r.Assume("concurrent phase: 4-8 goroutines call Create of one shared real data factory (process/interceptors/factory, production size-check wiring) for different canonical buffers; header signatures are placeholders there because only construction is exercised")
 	r.MinShapes(60)
 
 	e, err := newEnv(r.Seed)
@@ -491,7 +673,19 @@ func main() {
 	attempts := r.N(3, 6)
 	nCases := r.N(40, 400) * len(specs)
 
-	r.Parallel(nCases, func(c *vk.Case) {
+	facts, err := e.factories()
+	if err != nil {
+		r.Inconclusive("cannot build the intercepted data factories: " + err.Error())
+		r.Finish()
+	}
+	nConc := r.N(8, 40) * len(facts)
+	perGoroutine := r.N(200, 400)
+
+	r.Parallel(nCases+nConc, func(c *vk.Case) {
+		if c.Idx >= nCases {
+			concurrentCase(r, c, e, facts[(c.Idx-nCases)%len(facts)], perGoroutine)
+			return
+		}
 		rng := c.Rng
 		t := specs[c.Idx%len(specs)]
 		degenerate := (c.Idx/len(specs))%5 == 4
@@ -700,6 +894,28 @@ func main() {
 			}
 		}
 	})
+	// race detector reports (only with the RACE marker): a race inside the interceptor factories or the intercepted
+	// data packages is a violation of its own kind; anything else is evidence only
+	if races := vk.CollectRaces(); len(races) > 0 {
+		var other []vk.RaceReport
+		for _, rr := range races {
+			mine := false
+			for _, f := range rr.Funcs {
+				for _, pkg := range []string{"process/interceptors/factory", "process/block/interceptedBlocks", "process/transaction.", "process/rewardTransaction.", "process/unsigned."} {
+					if strings.Contains(f, pkg) {
+						mine = true
+					}
+				}
+			}
+			if mine {
+				r.Violation(nCases, "data-race "+rr.Key, "race detector: "+rr.Key, map[string]interface{}{"report": rr.First, "count": rr.Count})
+			} else {
+				other = append(other, rr)
+			}
+		}
+		r.Extra("race_reports", other)
+	}
+	r.Extra("race_detector", os.Getenv("VERIF_RACE_LOG") != "")
 	if r.Counter("empty_canonical_encoding:MiniBlock") == 0 && r.ReplayCase < 0 {
 		r.Inconclusive("no all-default miniblock was generated")
 	}
